@@ -95,7 +95,11 @@ func execTxs(tok []string) string {
 		return "facts-mismatch"
 	}
 	tx := btcutil.NewTx(&t)
-	return fmt.Sprintf("san=%s cb=%d so=%d fin=%d w=%d", cls(blockchain.CheckTransactionSanity(tx)),
+	san := "ok" // several defects at once are the rule here: only accept/reject is compared
+	if blockchain.CheckTransactionSanity(tx) != nil {
+		san = "rej"
+	}
+	return fmt.Sprintf("san=%s cb=%d so=%d fin=%d w=%d", san,
 		b2i(blockchain.IsCoinBaseTx(&t)), blockchain.CountSigOps(tx),
 		b2i(blockchain.IsFinalizedTransaction(tx, int32(h), time.Unix(cut, 0))), blockchain.GetTransactionWeight(tx))
 }
@@ -119,12 +123,10 @@ func execCbh(tok []string) string {
 	ext := ""
 	if h, err := blockchain.ExtractCoinbaseHeight(tx); err != nil {
 		re, ok := err.(blockchain.RuleError)
-		switch {
-		case ok && re.ErrorCode == blockchain.ErrMissingCoinbaseHeight:
-			ext = "missing"
-		case ok && re.ErrorCode == blockchain.ErrBadCoinbaseHeight:
-			ext = "bad"
-		default:
+		// missing vs malformed height are one rule class (BIP34) for the property
+		if ok && (re.ErrorCode == blockchain.ErrMissingCoinbaseHeight || re.ErrorCode == blockchain.ErrBadCoinbaseHeight) {
+			ext = "rej"
+		} else {
 			ext = "internal"
 		}
 	} else {
